@@ -23,8 +23,10 @@ Inductive op :=
 | OSet (t : Z) (p : prop) (v : value). (* t.<p> = v *)
 
 (* one callback of a listener: which listener, which of the three events, the
-   components of the argument, and "the argument is the object a read of the
-   property returns right after the assignment" *)
+   components of the argument, and "the argument equals (value and type) what
+   a read of the property returns, both when read from inside the callback and
+   right after the assignment" (the setter stores, then dispatches the stored
+   value, so both reads see it) *)
 Record call := { k_l : Z; k_p : prop; k_v : value; k_same : bool }.
 
 Definition triple := (value * value * value)%type.
